@@ -55,6 +55,10 @@ def run(ck: Check, repo: Repo) -> None:
     ck.rule("C15.9", "agents are visited in the algorithm's own order (self.agent_ids), never in the iteration order of the caller's dictionary, wherever "
                      "per-agent tensors are paired with per-agent networks by position or stacked for a shared policy and handed back by position")
     ck.rule("C15.10", "the shape passed to maybe_add_batch_dim describes the tensor at that point: before one-hot encoding the raw space shape, not the encoded width")
+    ck.rule("C15.11", "batch independence of acting: a get_action that accepts batches evaluates its networks in evaluation mode (eval() before the forward pass), "
+                      "as its siblings do — in training mode BatchNorm encoders normalise with the statistics of the batch at hand, so an observation's action and value "
+                      "depend on the other rows (exempt: RainbowDQN, whose noisy layers explore only in training mode)")
+    _acting_mode(ck, repo)
     _recursion(ck, repo)
     _purity(ck, repo)
     _agent_order(ck, repo)
@@ -65,6 +69,33 @@ def run(ck: Check, repo: Repo) -> None:
     _image(ck, repo)
     _batch_dim(ck, repo)
     _agents(ck, repo)
+
+
+# ------------------------------------------------------------------------------------------------ C15.11
+_ACTING = [("agilerl.algorithms.dqn", "DQN", ["get_action", "_get_action"]), ("agilerl.algorithms.cqn", "CQN", ["get_action"]),
+           ("agilerl.algorithms.ddpg", "DDPG", ["get_action"]), ("agilerl.algorithms.td3", "TD3", ["get_action"]),
+           ("agilerl.algorithms.ppo", "PPO", ["get_action", "_get_action_and_values"]), ("agilerl.algorithms.ippo", "IPPO", ["get_action"]),
+           ("agilerl.algorithms.maddpg", "MADDPG", ["get_action"]), ("agilerl.algorithms.matd3", "MATD3", ["get_action"])]
+
+
+def _acting_mode(ck: Check, repo: Repo) -> None:
+    n = 0
+    for modname, cname, meths in _ACTING:
+        cls = repo.cls(modname, cname)
+        evals = 0
+        first = None
+        for mn in meths:
+            m = cls.methods.get(mn)
+            if m is None:
+                continue
+            first = first or m
+            evals += sum(1 for c in calls_in(m.node, nested=True) if last_attr(c) == "eval" and not c.args)
+        n += 1
+        ck.ob("C15.11", first, first.node, evals >= 1, f"{cname}.get_action puts the acting network into evaluation mode for the forward pass",
+              detail="no eval() on the acting path: with a BatchNorm encoder (CNN with layer_norm=True) rows 0-1 of a 5-image batch differ from the same two images evaluated alone "
+                     "(about 3e-3 in the seeding agent's probe), i.e. the action / value of one observation depends on which other observations share the call",
+              construct=f"{cname}.get_action: evaluation mode")
+    ck.floor("C15.11", n, 8, "batched get_action implementations")
 
 
 # ------------------------------------------------------------------------------------------------ C15.7
